@@ -307,7 +307,54 @@ def run(tier, seed):
             run.fail(case, "proper prefix of a valid encoding decoded to a value", kind="oracle")
         elif "ok" in mo[k]:
             raise MachineryError("model accepts a proper prefix: %s" % json.dumps({"schema": s, "prefix": p.hex()})[:500])
+    # ---------------- (3b) proper prefixes of a value that is *skipped* during schema resolution (the skip functions
+    # must length-check like the read functions): writer {z: long, a: S}, reader {z: long}, input cut inside a
+    skp = []
+    for (s, ps, nf, b, nb, std) in base[:scale(tier, 200)]:
+        wrec = {"type": "record", "name": "SkipWrap__", "fields": [{"name": "z", "type": "long"}, {"name": "a", "type": s}]}
+        rrec = {"type": "record", "name": "SkipWrap__", "fields": [{"name": "z", "type": "long"}]}
+        try:
+            pw = fastavro.parse_schema(json.loads(json.dumps(wrec)))
+        except Exception:
+            continue
+        for enc in (b, std):
+            cuts = range(len(enc)) if len(enc) <= 200 else sorted(set([rnd.randrange(len(enc)) for _ in range(40)] + [len(enc) - 1, len(enc) - 2, 0, 1]))
+            for c in cuts:
+                skp.append((s, pw, rrec, enc[:c], len(enc)))
+    mo = run_batch([{"op": "skip", "schema": to_wire(s), "bytes": p.hex()} for (s, pw, rrec, p, L) in skp])
+    for k, (s, pw, rrec, p, L) in enumerate(skp):
+        run.cov["evaluations"] += 1
+        run.tag("prefix-skipped")
+        if "rest" in mo[k]:
+            raise MachineryError("model skips a proper prefix: %s" % json.dumps({"schema": s, "prefix": p.hex()})[:500])
+        for sequential in (False, True):
+            data = gen_long(5) + p
+            fo = io.BytesIO(data)
+            if sequential:
+                fo = ReadOnly(fo)
+            try:
+                v = fastavro.schemaless_reader(fo, pw, rrec)
+                io_ = {"ok": to_wire(v)}
+            except RecursionError:
+                io_ = {"err": "fuel"}
+            except Exception as e:  # noqa
+                io_ = {"err": exc_class(e)}
+            if "ok" in io_:
+                case = {"schema": s, "prefix": p.hex(), "full_length": L, "impl": io_, "sequential_input": sequential,
+                        "tags": ["prefix-skipped"]}
+                run.fail(case, "proper prefix of a valid encoding was skipped without an error during schema resolution", kind="oracle")
+                break
     return run.finish()
+
+
+class ReadOnly:
+    """an input that offers read() only"""
+
+    def __init__(self, fo):
+        self._fo = fo
+
+    def read(self, n=-1):
+        return self._fo.read(n)
 
 
 def gen_long(n):
